@@ -25,6 +25,7 @@ mod c15;
 mod c16;
 mod c17;
 mod c18;
+mod c19;
 mod c20;
 mod hist;
 mod world;
@@ -98,6 +99,7 @@ fn main() {
         emit: Emit { out: std::io::BufWriter::new(file), n: 0 },
     };
     match prop.as_str() {
+        "C19" => c19::run(&mut ctx),
         "C20" => c20::run(&mut ctx),
         "C02" => c02::run(&mut ctx),
         "C03" => auth::run_c03(&mut ctx),
